@@ -2,10 +2,10 @@ package interp
 
 import (
 	"fmt"
-	"os"
-	"time"
 	"go/token"
+	"os"
 	"sort"
+	"time"
 
 	"golang.org/x/tools/go/ssa"
 
@@ -72,15 +72,15 @@ type pathState struct {
 	freshCtr   int
 	ghost      map[string]value
 
-	nondetMapOrder bool
-	concrete       bool // replay mode: all nondet values come from input model
-	input          Model
-	known          map[string]bool // enabled known-finding exclusions
-	assertQueries  int
-	queryHook      func(label string, pc []T, neg T, r smt.Result) // thorough: cross-solver
-	crossChecked   int
-	crossUnknown   int
-	crossDisagree  []string
+	nondetMapOrder  bool
+	concrete        bool // replay mode: all nondet values come from input model
+	input           Model
+	known           map[string]bool // enabled known-finding exclusions
+	assertQueries   int
+	queryHook       func(label string, pc []T, neg T, r smt.Result) // thorough: cross-solver
+	crossChecked    int
+	crossUnknown    int
+	crossDisagree   []string
 	stopOnViolation bool
 	stubs           map[*ssa.Function]*ssa.Function
 	stubCalls       map[string]int
